@@ -279,6 +279,14 @@ func (lc *leaderController) NewTerm(req *proto.NewTermRequest) (*proto.NewTermRe
 	}
 
 	lc.followers = nil
+
+	// Entries that were appended but not synced yet are not visible in the WAL: make sure
+	// they are, otherwise the head entry reported here would not be the real end of the
+	// log, and the log would "grow" after the node has been fenced
+	if err := lc.wal.Sync(context.Background()); err != nil {
+		return nil, errors.Wrap(err, "failed to sync the wal")
+	}
+
 	headEntryId, err := getLastEntryIdInWal(lc.wal)
 	if err != nil {
 		return nil, err
